@@ -516,11 +516,11 @@ def check(ctx):
     ctx.rule("R12.4", "kind discipline {CQ, Dim}: every call of a CQMap constructor passes the kind of type the callee reads")
     ctx.rule("R12.5", "Born rule: pure scalar -> |z|^2, mixed scalar -> z")
     ctx.rule("R12.6", "is_mixed selects the functor; get_counts / measure read the real part of the evaluation of init_and_discard()")
-    check_layouts(ctx)
-    check_tensor_network(ctx)
-    check_dispatch(ctx)
-    check_kinds(ctx)
-    check_circuit_side(ctx)
+    ctx.attempt(check_layouts, ctx)
+    ctx.attempt(check_tensor_network, ctx)
+    ctx.attempt(check_dispatch, ctx)
+    ctx.attempt(check_kinds, ctx)
+    ctx.attempt(check_circuit_side, ctx)
     ctx.floor("R12.1", 16)
     ctx.floor("R12.2", 8)
     ctx.floor("R12.3", 11)
